@@ -5,7 +5,7 @@ from mc.core import Space, HarnessError, raised
 from mc import enum as E
 
 ID = "C18"
-RULE = ("isvalidaa / isvalidcdr3 on every string up to length 4 over {C,A,F,W,x,' '} and an object zoo; standardize_dataframe on one-row tables "
+RULE = ("isvalidaa / isvalidcdr3 on every string up to length 4 over {C,A,F,W,x,' ',newline,A-umlaut} and an object zoo; standardize_dataframe on one-row tables "
         "over each column / each chain's four columns x the full option product (thorough) or option star (quick), multi-row tables with "
         "shifted index and extra columns: input unchanged, shape/index/order preserved, every output cell equals the single-cell tidytcells "
         "call with the same options; multimerge on 2-4 tables with partially overlapping keys against a semantic join; "
@@ -56,7 +56,7 @@ def spaces(tier):
     opts = list(opt_star()) if q else list(opt_product())
 
     def gen_pred():
-        for s in E.universe("CAFWx ", 4):
+        for s in E.universe("CAFWx \n\u00c4", 4):
             yield ("pred", s)
         for i in range(len(zoo())):
             yield ("zoo", i)
@@ -98,7 +98,7 @@ def spaces(tier):
                 yield ("merge", ks)
 
     return [
-        Space("predicates", gen_pred, "isvalidaa/isvalidcdr3 on all 1555 strings of U({C,A,F,W,x,' '},4) and an object zoo of %d objects" % len(zoo())),
+        Space("predicates", gen_pred, "isvalidaa/isvalidcdr3 on all 4681 strings of U({C,A,F,W,x,' ',newline,A-umlaut},4) and an object zoo of %d objects" % len(zoo())),
         Space("single-cell-tables-x-option-product", gen_single, "one-row, one-column tables for each of the 9 standard columns x every cell value x all 192 option combinations", shards=32),
         Space("chain-rows-x-options", gen_chain, "one-row tables over each chain's four columns (all cell combinations) x option star (quick) / full 192-option product (thorough); all-nine-columns rows x 192 options", shards=64),
         Space("multi-row-tables-x-option-star", gen_multi, "2-row (thorough: + thinned 3-row) tables over 4 columns x option star; index shifted, extra column", shards=32),
